@@ -3,7 +3,7 @@ arithmetic of the cached-layer pipeline when request SRS = grid SRS (no pyproj, 
 import z3
 
 from engine import symex
-from engine.symex import AND, OR, NOT, IMPLIES, ITE, assume, int_var, real_var, bool_var, SymBool, SymInt, concretize
+from engine.symex import AND, OR, NOT, IMPLIES, ITE, assume, int_var, real_var, bool_var, SymBool, SymInt, concretize, to_native
 from engine.e1 import Harness, run_ob, replay, spec  # noqa
 from props import common, tilesvc
 from props.C03_grid import within, ABS_ROUND, span, tiled_area
@@ -16,7 +16,7 @@ class Mosaic(Harness):
     implied by the mosaic bbox, equals the tile's own ground rectangle"""
     modules = ['mapproxy.grid', 'mapproxy.image.tile']
     functions = ['TileGrid.get_affected_level_tiles', 'TileGrid._tile_iter', '_create_tile_list', 'TileGrid._tiles_bbox',
-                 'TileMerger._tile_offset', 'TileMerger._src_size']
+                 'TileMerger.merge', 'TileMerger._tile_offset', 'TileMerger._src_size']
     timeout_s = 1500
 
     @classmethod
@@ -35,10 +35,16 @@ class Mosaic(Harness):
         assume(AND(q[2] - q[0] >= res, q[3] - q[1] >= res, q[2] - q[0] <= m * sx, q[3] - q[1] <= m * sy,
                    q[0] >= G.bbox[0] - sx, q[2] <= G.bbox[2] + sx, q[1] >= G.bbox[1] - sy, q[3] <= G.bbox[3] + sy,
                    q[0] < G.bbox[2], q[2] > G.bbox[0], q[1] < G.bbox[3], q[3] > G.bbox[1]))
-        return dict(q=q)
+        from engine.symex import bool_var
+        # some stored tiles may be missing (outside a polygon coverage, not seeded, upstream error): first four slots
+        return dict(q=q, missing=[bool_var('missing%d' % k) for k in range(4)])
 
     @classmethod
-    def prop(cls, ctx, cfg, q):
+    def native_inputs(cls, cex):
+        return dict(q=[to_native(v) for v in cex['q']], missing=[bool(x) for x in cex.get('missing', [])])
+
+    @classmethod
+    def prop(cls, ctx, cfg, q, missing=()):
         G, it = ctx['G'], ctx['it']
         level = cfg['level']
         res = G.resolution(level)
@@ -48,6 +54,35 @@ class Mosaic(Harness):
         W, H = tm._src_size()
         eps = res * 1e-6 + 2 * ABS_ROUND
         ok = AND(within(abbox[2] - abbox[0], W * res, 2 * eps), within(abbox[3] - abbox[1], H * res, 2 * eps))
+        # the real TileMerger.merge pastes the available tiles; stub canvas records (tile, position)
+        import types
+        pasted = []
+
+        class Canvas(object):
+            def paste(self, tile, pos):
+                pasted.append((tile.coord, pos))
+        it.__dict__['create_image'] = lambda size, opts: Canvas()
+        it.__dict__['ImageSource'] = lambda result, size=None, image_opts=None, cacheable=True: result
+
+        def src(t):
+            img = types.SimpleNamespace(coord=t, draft=lambda mode, size: None)
+            return types.SimpleNamespace(cacheable=True, as_image=lambda: img, close_buffers=lambda: None)
+        ordered = []
+        expect = []
+        for i, t in enumerate(tiles):
+            gone = t is None or (i < len(missing) and (bool(missing[i]) if not isinstance(missing[i], bool) else missing[i]))
+            ordered.append(None if gone else src(t))
+            if not gone:
+                expect.append(t)
+        if (nx, ny) != (1, 1):
+            tm.merge(ordered, types.SimpleNamespace(mode='RGB'))
+            ok = AND(ok, len(pasted) == len(expect))
+            for (t, (ox, oy)), te in zip(pasted, expect):
+                b = G.tile_bbox(t)
+                ok = AND(ok, t[0] == te[0], t[1] == te[1],
+                         within(abbox[0] + ox * res, b[0], eps), within(abbox[3] - oy * res, b[3], eps),
+                         ox + G.tile_size[0] <= W, oy + G.tile_size[1] <= H)
+            return ok
         for i, t in enumerate(tiles):
             if t is None:
                 continue
